@@ -224,6 +224,9 @@ ares_status_t ares_send_nolock(ares_channel_t *channel, ares_server_t *server,
   if (status == ARES_SUCCESS && qid) {
     *qid = id;
   }
+  if (status == ARES_SUCCESS) {
+    ares_event_thread_query_enqueued(channel);
+  }
   return status;
 }
 
